@@ -30,6 +30,11 @@ def names_for(n, labelling):
         ids = ids[::-1]
     elif labelling == "mix":
         ids = ids[1::2] + ids[0::2]
+    if labelling == "pad":
+        # names whose numeric parts differ only by zero padding or compare differently as text and as numbers: the
+        # redundancy rule keeps 'the lower sort order' latent, so the order on Variables must be total and antisymmetric
+        pool = ["U1", "U01", "U10", "U2", "U02", "U010", "U001", "U20"]
+        return pool[:n]
     return [f"V{i}" for i in ids]
 
 
@@ -337,6 +342,8 @@ def evans_jobs(t):
         for lab in ("fwd", "rev", "mix"):
             jobs.append(("projection", n, lab, to))
             jobs.append(("idempotence", n, lab, to))
+    jobs.append(("projection", 5, "pad", to))
+    jobs.append(("idempotence", 5, "pad", to))
     for n in [3, 4]:  # n = 5 (70-node universe) stays 'unknown' after 10 minutes: not worth a thorough slot
         for lab in ("fwd", "rev"):
             jobs.append(("api", n, lab, to))
